@@ -886,6 +886,29 @@ def _install_param_wrappers():
     USED_STUBS.add("Utilities._params checkers accept a Sym and perform the same comparison (recorded as path condition)")
 
 
+def _least_squares_proxy(real):
+    """scipy.optimize.least_squares (FFI) on CONCRETE data that happens to sit in object arrays while symbolic mode is on (numerical inverse of the
+    isoparametric map for concrete query points): arguments and residuals are demoted to floats; a genuinely symbolic argument is out of reach"""
+
+    def to_float(a):
+        a = _np.asarray(a)
+        if a.dtype == object:
+            if has_sym(a):
+                raise OutOfReach("scipy least_squares on symbolic data")
+            return _np.array([float(v) for v in a.ravel()], dtype=float).reshape(a.shape)
+        return a
+
+    def wrapper(fun, x0, *a, **k):
+        if not _ACTIVE[0]:
+            return real(fun, x0, *a, **k)
+        args = tuple(to_float(v) for v in k.pop("args", ()))
+        USED_STUBS.add("scipy.optimize.least_squares runs concretely (numerical inverse map of concrete query points); symbolic arguments are out of reach")
+        return real(lambda x, *aa: to_float(fun(x, *aa)), to_float(x0), *a, args=args, **k)
+
+    wrapper.__module__ = "engine.facade"
+    return wrapper
+
+
 def install():
     """Replace np / sparse / sla in every loaded EasyFEA module by the proxies (idempotent).  With
     symbolic mode off the proxies forward to numpy/scipy, so behaviour is unchanged."""
@@ -907,6 +930,9 @@ def install():
         sla = getattr(m, "sla", None)
         if isinstance(sla, types.ModuleType) and sla.__name__ == "scipy.sparse.linalg":
             m.sla = SLA
+        ls = getattr(m, "least_squares", None)
+        if ls is not None and getattr(ls, "__module__", "").startswith("scipy.optimize"):
+            m.least_squares = _least_squares_proxy(ls)
     _INSTALLED[0] = True
 
 
